@@ -50,6 +50,10 @@ SHAPES = {
                                                   {"body": [{"k": "step", "script": [{"do": "ok", "big": 450 * 1024}]}], "result": "r1"},
                                                   {"body": [{"k": "step", "script": [{"do": "ok", "big": 450 * 1024}]}], "result": "r2"}],
                        "cfg": {"preset": "all_completed"}}, {"k": "step", "val": 3}],
+    # contexts whose result exceeds 256 kB are recorded as a summary: their completion record is still the LAST thing the workflow
+    # waits for before it returns
+    "child-summarised-last": [{"k": "child", "body": [{"k": "step", "val": 1}], "result": {"big": 300 * 1024}}],
+    "map-summarised-last": [{"k": "map", "items": [0, 1], "body": [{"k": "step", "val": 1}], "result": {"big": 160 * 1024}, "cfg": None}],
     "nested": [{"k": "par", "branches": [{"body": [{"k": "map", "items": [1, 2], "body": [{"k": "step", "val": 1}, {"k": "wait", "s": 1}]}]},
                                            {"body": [{"k": "child", "body": [{"k": "step", "val": 2}, {"k": "invoke", "fn": "f", "payload": 1, "cfg": {"timeout": 60}}]}]}],
                 "cfg": {"preset": "all_completed"}}],
